@@ -11,6 +11,7 @@ from conda_content_trust import authentication as A, common as C
 from vlib import cfgunit, configrun, gen_envelope as GE, gen_json as G, gen_metadata as GM, keys, ref_openpgp, ref_verify as RV
 from vlib.ref_canon import canon, jeq
 from vlib.runner import Unit, Violation
+from vlib import clicheck as _clicheck
 from vlib import threaded as _threaded
 
 PROPERTY = "C04"
@@ -260,4 +261,5 @@ UNITS = [
          essential=["accepted>=2", "revocation", "persist", "reask", "adv", "replay"],
          doc="model-based histories of root update offers with chain invariants after every step"),
     _threaded.unit_threads(PROPERTY),
+    _clicheck.unit_cli(),
 ]
